@@ -179,3 +179,13 @@ def detmap_3d_pool(doc: dict, params: dict) -> bool:
 
 
 MATCHERS["detmap_3d_pool"] = detmap_3d_pool
+
+
+def custom_waveform_variable(doc: dict, params: dict) -> bool:
+    """The template has a CustomWaveform whose samples are a variable."""
+    import json as _json
+
+    return '"w": "custom", "samples": {"e": "arr"' in _json.dumps(doc.get("world", {}).get("program", []))
+
+
+MATCHERS["custom_waveform_variable"] = custom_waveform_variable
